@@ -1,5 +1,5 @@
 import Driver.Util
-import Driver.Prio
+import Driver.Registry
 /-!
 Line-protocol driver.  stdin: one line per operation, `<op>\t<implementation output>`.
 For every line the model's canonical output is computed and compared with the implementation's;
@@ -12,14 +12,10 @@ and a final `DONE lines=<n> mismatches=<m> monitor=<k>`.
 open Driver
 
 structure St where
+  all : Driver.All := {}
   lines : Nat := 0
   mism : Nat := 0
   mon : Nat := 0
-
-def dispatch (toks : List String) (impl : String) : Res :=
-  match toks with
-  | "prio" :: rest => Prio.line rest impl
-  | _ => bad "unknown component"
 
 partial def loop (h : IO.FS.Stream) (out : IO.FS.Stream) (st : St) : IO St := do
   let line ← h.getLine
@@ -31,9 +27,9 @@ partial def loop (h : IO.FS.Stream) (out : IO.FS.Stream) (st : St) : IO St := do
     | [a] => (a, "")
     | a :: rest => (a, "\t".intercalate rest)
     | [] => ("", "")
-  let r := dispatch (op.splitOn " ") impl
+  let (all, r) := Driver.dispatch st.all (op.splitOn " ") impl
   let n := st.lines + 1
-  let mut st := { st with lines := n }
+  let mut st := { st with lines := n, all := all }
   if r.model != impl then
     out.putStrLn s!"MISMATCH\t{n}\t{op}\timpl={impl}\tmodel={r.model}"
     st := { st with mism := st.mism + 1 }
